@@ -17,7 +17,7 @@ import (
 // The command side as a sequential decision: one call of the handler built by NewCommandHandlerWithResult
 // (handler.go → PubSubBackend.OnCommandProcessed) with a scripted publisher.
 //
-//	REQ cmd <ackErrs 0|1> <pre ok|marshal|noop|modify|topic> <pub ok|fail|failh|handled> <bad 0|1> <res hex> <err -|=hex>
+//	REQ cmd <ackErrs 0|1> <pre ok|marshal|noop|modify|topic> <pub ok|fail|failh|handled> <bad 0|1> <res hex> <err -|=hex> <error kind>
 //	OBS [pub,<op matches 0|1>,<res hex>,<err -|=hex>,<um ok|fail|diff> pr,<ok|err>] ret,<nil|err>
 type cmdCase struct {
 	ackErrs bool
@@ -26,6 +26,7 @@ type cmdCase struct {
 	bad     bool
 	res     string
 	err     *string
+	ekind   string // how the handler's error value is built (mkErr): its Error() is *err whatever the kind
 }
 
 func (c cmdCase) Req() string {
@@ -33,13 +34,20 @@ func (c cmdCase) Req() string {
 	if c.err != nil {
 		e = "=" + wh.HexS(*c.err)
 	}
-	return fmt.Sprintf("cmd %s %s %s %s %s %s", b01(c.ackErrs), c.pre, c.pub, b01(c.bad), wh.HexS(c.res), e)
+	k := c.ekind
+	if k == "" {
+		k = "new"
+	}
+	return fmt.Sprintf("cmd %s %s %s %s %s %s %s", b01(c.ackErrs), c.pre, c.pub, b01(c.bad), wh.HexS(c.res), e, k)
 }
 
 func parseCmdCase(f []string) (cmdCase, error) {
 	var c cmdCase
-	if len(f) != 7 {
-		return c, errors.New("cmd: want 7 fields")
+	if len(f) != 7 && len(f) != 8 {
+		return c, errors.New("cmd: want 7 or 8 fields")
+	}
+	if len(f) == 8 {
+		c.ekind = f[7]
 	}
 	c.ackErrs = f[1] == "1"
 	c.pre, c.pub = f[2], f[3]
@@ -160,7 +168,7 @@ func runCmdCase(c cmdCase) (obs string) {
 	v := c.res // the generator makes the value start with "bad" exactly when c.bad
 	h := requestreply.NewCommandHandlerWithResult[Cmd, Res]("h", backend, func(ctx context.Context, cmd *Cmd) (Res, error) {
 		if c.err != nil {
-			return Res{V: v}, errors.New(*c.err)
+			return Res{V: v}, mkErr(c.ekind, *c.err)
 		}
 		return Res{V: v}, nil
 	})
